@@ -93,7 +93,7 @@ CHECKS = {
         technique="TLA+ spec ProcHistory (TLC exhaustive: trees x histories of process/reprocess/execute/attach over an abstract payload state machine) + conformance replay into the real Processor with a real SQLite<->iteration hook implementation; plus the MultiEngine replay (every tree processed and executed)",
         text="TLC enumerates trees over a SQL or iteration source (<=3 quick / <=4 thorough building calls: operations, transfers among three engines, up to two materializations incl. directly after a transfer, chains with a statically empty leaf, chains of the tree with itself sharing its materialization nodes, zero-column branches) and every history of <=2 (quick) / <=3 (thorough) process / process-the-result-again / iteration execute / attach_payload actions, on an abstract state machine of payload cells. Every history is replayed into the real Processor (hooks implemented for real with SQLite temp tables and RowSequence): rows of the processed tree vs TLC's reference rows, structure of the input tree before/after, transfers of the input tree never payloaded, materializations payloaded exactly as the abstract machine says with the rows of their upstream, same columns/engine, hooks never called for statically empty/identity relations and always on sources that really evaluate.",
         design_ref="§6 C07",
-        note="open finding F8 (SQL materialization whose upstream is rebuilt by process()) excluded by matcher+signature; the as-coded transcription of _process_recursive (hook-call prediction) is not part of the model: conformance is to the abstract payload machine",
+        note="open findings F8 / F16 (SQL materialization whose upstream is rebuilt by process()) excluded by matcher+signature; the as-coded transcription RA_Proc!Process is proved by TLC to refine the abstract machine outside that class (ProcessRefines; companion ProcKF8 re-derives F8 in the model) and its predicted hook-call sequences are compared with the real Processor's hook log (zero drift)",
     ),
     "C09": dict(
         technique="TLA+ spec PoolHistory (TLC exhaustive to depth 2-3 + TLC simulation to depth 6-8 over a shared pool) + replay with deep fingerprints of every pool member and leaf payload after every step",
